@@ -6,6 +6,7 @@ import (
 	"fmt"
 	"go/token"
 	"go/types"
+	"strings"
 
 	"golang.org/x/tools/go/ssa"
 )
@@ -17,7 +18,7 @@ func init() {
 		Explain: "Decides on every path of partitionConsumer.parseResponse: the batch's messages are appended to the delivered list only when the batch is not a control batch and — under ReadCommitted — not (transactional ∧ its producer in the aborted set), while under ReadUncommitted nothing is filtered (C11.no-control); " +
 			"parseRecords (which advances child.offset) runs before the control/aborted filters can skip the batch (C11.advance); the aborted set is extended only from index entries whose first offset is not beyond the batch and each used entry is popped, and an entry is removed only on an ABORT marker (C11.marker); the aborted index is sorted by FirstOffset (C11.sorted); the request carries the configured isolation level (C11.request). " +
 			"NOT covered: transactions spanning fetch responses (the set is per response), completeness of the broker's index.",
-		Rules: []func(*Ctx){c11Rules, c03FetchFields, c03FreshElement},
+		Rules: []func(*Ctx){c11Rules, c11ControlTolerant, c03FetchFields, c03FreshElement, c03ErrLost},
 	})
 }
 
@@ -364,4 +365,52 @@ func cellOf(v ssa.Value) ssa.Value {
 		v = bound
 	}
 	return v
+}
+
+// C11.control-tolerant: a marker the client does not fully understand is skipped, never an error.
+func c11ControlTolerant(c *Ctx) {
+	p := c.P
+	rule := "C11.control-tolerant"
+	c.Doc(rule, "ControlRecord.decode returns a non-nil error only when one of its reads (packetDecoder.get*) failed: it rejects nothing on its own account — unknown marker types become ControlRecordUnknown, key/value versions are read and kept.  An error here makes parseResponse give up the whole fetch response, including the data batches that precede the marker, after the offset has moved past them")
+	c.Floor(rule, 4)
+	fn := c.NeedFn(rule, "ControlRecord.decode")
+	if fn == nil {
+		return
+	}
+	n := 0
+	for _, b := range fn.Blocks {
+		r, ok := lastInstr(b).(*ssa.Return)
+		if !ok || len(r.Results) == 0 {
+			continue
+		}
+		n++
+		v := r.Results[len(r.Results)-1]
+		ok = false
+		var check func(v ssa.Value, d int) bool
+		check = func(v ssa.Value, d int) bool {
+			if d > 4 {
+				return false
+			}
+			if IsNil()(v) {
+				return true
+			}
+			switch x := v.(type) {
+			case *ssa.Extract:
+				if cl, isC := x.Tuple.(*ssa.Call); isC && cl.Call.IsInvoke() && strings.HasPrefix(cl.Call.Method.Name(), "get") {
+					return true
+				}
+			case *ssa.Phi:
+				for _, e := range x.Edges {
+					if !check(e, d+1) {
+						return false
+					}
+				}
+				return true
+			}
+			return false
+		}
+		ok = check(v, 0)
+		c.Check(ok, rule, fn, fmt.Sprintf("return#%d-error-is-a-read-error", n), r, "the error returned is nil or the error of a read", "ControlRecord.decode returns an error of its own making ("+describe(v)+"): a well-formed commit/abort marker it does not like (for instance a newer key version) fails the whole fetch response — the data records fetched before the marker are dropped although the offset has advanced past them, at every isolation level", nil)
+	}
+	_ = p
 }
